@@ -32,19 +32,13 @@ variable {K : Type} [Field K] [LinearOrder K] [IsStrictOrderedRing K]
 /-- BoundingBox.overlaps -/
 
 @[gen_def] def bbox_overlaps (l1 b1 r1 t1 l2 b2 r2 t2 : K) : Bool :=
-  if l2 > r1 then
+  if (|(((l1 + r1) * ((1 : K) / 2)) - ((l2 + r2) * ((1 : K) / 2)))| * (2 : K)) > ((r1 - l1) + (r2 - l2)) then
     false
   else
-    if r2 < l1 then
+    if (|(((t1 + b1) * ((1 : K) / 2)) - ((t2 + b2) * ((1 : K) / 2)))| * (2 : K)) > ((t1 - b1) + (t2 - b2)) then
       false
     else
-      if b2 > t1 then
-        false
-      else
-        if t2 < b1 then
-          false
-        else
-          true
+      true
 
 
 /-- BoundingBox.area -/
